@@ -391,6 +391,10 @@ def special_bodies():
         yield f"application/x-www-form-urlencoded; charset={cs}", FORM_BASE, "form"
         yield f"application/x-www-form-urlencoded; charset={cs}", b"a=\xff&\xe4=1", "form"
         yield f"multipart/form-data; boundary=bnd; charset={cs}", MP_BASE, "form"
+        # ... and the same charset with names that contain what looks like an escape of some other layer, raw high bytes, a
+        # per-part charset of the same kind
+        yield f"multipart/form-data; boundary=bnd; charset={cs}", MP_BASE.replace(b'name="f"', b'name="f%22%0A%E4%ZZ%"').replace(b'filename="a.txt"', b'filename="100%25 \xe4\xb8\xad%FF.txt"'), "form"
+        yield "multipart/form-data; boundary=bnd", MP_BASE.replace(b"Content-Type: text/plain", b"Content-Type: text/plain; charset=" + cs.encode("latin-1")).replace(b'name="f"\r\n', b'name="f"\r\nContent-Type: text/plain; charset=' + cs.encode("latin-1") + b"\r\n"), "form"
     for b in ("", '""', "(", "[", "\\", "*", "b" * 3000, "é", "a b", "--", "\\d+", "\xe2\x80\x94x", "\xc5\x91", "b\xe4\xb8\xadd", "\xf0\x9f\x98\x80"):
         yield f"multipart/form-data; boundary={b}", MP_BASE, "form"
         yield f"multipart/form-data; boundary={b}", MP_BASE.replace(b"bnd", b.encode("latin-1")), "form"
